@@ -13,6 +13,7 @@ import DiskfsModel.Proofs.MetaInodeBytes
 import DiskfsModel.Proofs.MetaRR
 import DiskfsModel.Proofs.MetaSqfs
 import DiskfsModel.Proofs.MetaWriteBack
+import DiskfsModel.Proofs.MetaSqXattr
 import DiskfsModel.Generated.Meta
 namespace Diskfs.C19
 open Diskfs.Meta Diskfs.Ext4.InodeCodec
@@ -396,5 +397,48 @@ example : (idIndex [0, 1000] 65534).1.length < 65536 := by decide
 -- the inode body of a 256-byte record: offsets 0x98..0xff satisfy the hypotheses of ext4_setters_drop_inode_body
 example : RecordWF (zeros 256) ∧ (0xa3 : Nat) < (zeros 256).length ∧ 0x98 ≤ (0xa3 : Nat) ∧ dropped 0xa3 = true := by
   simp [RecordWF, dropped]
+
+/-! ### squashfs extended attributes: the reader's lookup walk (xAttrTable.find) -/
+
+open Diskfs.Meta.SqXattr in
+/-- squashfs xattr lookup: an id entry that names the position of `as.length` attributes laid out back to back
+    in the key/value data (anything before, anything behind) yields exactly these attributes, in order: names of
+    1..65535 bytes, values of any length below 2^32 (empty ones included), any number of attributes.  With the
+    cursor rule as found this fails from the third attribute on (sqfs_xattr_cursor_as_found). -/
+theorem sqfs_xattr_find_all (pre : Bytes) (as : List Attr) (rest : Bytes) (h : ∀ a ∈ as, WfAttr a)
+    (hpos : 0 < (encSet as ++ rest).length) :
+    find true (pre ++ (encSet as ++ rest)) pre.length as.length = some (as.map fun a => (a.name, a.val)) := by
+  have hlt : ¬ (pre ++ (encSet as ++ rest)).length ≤ pre.length := by
+    simp only [List.length_append] at hpos ⊢; omega
+  have := walk_encSet [] as rest h
+  simp only [List.nil_append, List.length_nil] at this
+  simp only [find, if_neg hlt, List.drop_left, this]
+
+open Diskfs.Meta.SqXattr in
+/-- … so the lookup finds the i-th attribute of the set, for every i -/
+theorem sqfs_xattr_find_ith (pre : Bytes) (as : List Attr) (rest : Bytes) (h : ∀ a ∈ as, WfAttr a)
+    (i : Nat) (hi : i < as.length) :
+    (find true (pre ++ (encSet as ++ rest)) pre.length as.length).bind (·[i]?) = some (as[i].name, as[i].val) := by
+  have hpos : 0 < (encSet as ++ rest).length := by
+    cases as with
+    | nil => simp at hi
+    | cons a t => simp [encSet, encAttr]; omega
+  rw [sqfs_xattr_find_all pre as rest h hpos]
+  simp [hi]
+
+open Diskfs.Meta.SqXattr in
+/-- the cursor rule as found (`ptr += valStart + valSize`, repaired by 104ff15) is right for ids of one or two
+    attributes, on any bytes, and misreads a set of three: after the second attribute the cursor is one attribute too far -/
+theorem sqfs_xattr_cursor_as_found :
+    (∀ b n, n ≤ 2 → walk false b n 0 = walk true b n 0) ∧
+    walk false (encSet [⟨0, [97], [49]⟩, ⟨0, [98], [50]⟩, ⟨0, [99], [51]⟩]) 3 0 = none ∧
+    walk true (encSet [⟨0, [97], [49]⟩, ⟨0, [98], [50]⟩, ⟨0, [99], [51]⟩]) 3 0
+      = some [([97], [49]), ([98], [50]), ([99], [51])] :=
+  ⟨walk_as_found_le_two, by decide, by decide⟩
+
+/-! non-vacuity (xattr walk) -/
+example : Meta.SqXattr.WfAttr ⟨0, [117, 115, 101, 114], []⟩ := by simp [Meta.SqXattr.WfAttr]
+example : Meta.SqXattr.find true (Meta.SqXattr.encSet [⟨0, [97], []⟩, ⟨2, [98, 98], [1, 2, 3]⟩]) 0 2
+    = some [([97], []), ([98, 98], [1, 2, 3])] := by decide
 
 end Diskfs.C19
